@@ -13,7 +13,7 @@
        clock: the baseline and every candidate handed to the evaluator mean what the input means
        (C01_reductions_lossless_partial) -- given the record `leaves`, which names exactly the
        transformations whose image-level theorem is NOT yet proved in Coq (coverage of the
-       mzeng/battiato reindexing);
+       battiato reindexing; the mzeng sorter is proved: C01_image_mzeng);
    (4) FILE TO FILE: from_slice reads a valid datastream the way the specification's whole-file decoder does
        (C01_input_parse_means: chunk walker = strict chunk parser, IDAT/IHDR/PLTE/tRNS collection, header
        and colour interpretation, PngImage::new), and optimize_from_memory returns the input bytes or the
@@ -24,7 +24,7 @@
 From OxiVerif Require Import Base.Common Spec.Filter Spec.Adam7 Spec.Sem Model.Types Model.Options Model.BitDepth
   Model.ScanLines Model.Filters Model.Color Model.Palette Model.Reductions Model.Evaluate Model.Optimize
   Proofs.Bridge Proofs.PixelProofs Proofs.FilterProofs Proofs.ImageLift Proofs.LiftReductions Proofs.LiftColor
-  Proofs.LiftPalette Proofs.LiftLines Proofs.LiftBits Proofs.LiftInterlace Proofs.LiftDeinterlace Proofs.PipelineLossless Proofs.FilterStream Proofs.EmittedStream.
+  Proofs.LiftPalette Proofs.LiftLines Proofs.LiftBits Proofs.LiftInterlace Proofs.LiftDeinterlace Proofs.CoocMatrix Proofs.LiftMzeng Proofs.PipelineLossless Proofs.FilterStream Proofs.EmittedStream.
 From OxiVerif Require Import Model.Interlace.
 From OxiVerif Require Import Spec.Decode Spec.DecodeFile Model.Headers Model.PngData Proofs.OutputProofs Proofs.OutputDecode Proofs.FileLevel Proofs.UnfilterImage Proofs.InputParse Proofs.FileToFile.
 
@@ -271,3 +271,20 @@ Example C01_file_example :
   spec_decode_png (fun x => Some x) tiny_png = Some {| pic_w := 1; pic_h := 1; pic_px := [[(1285, 1285, 1285, 65535)]] |}
   /\ exists nm ih rest, spec_parse_png tiny_png = Some ((nm, ih) :: rest) /\ List.filter (named spec_IHDR) rest = [].
 Proof. split; [vm_compute; reflexivity|]. eexists _, _, _. split; vm_compute; reflexivity. Qed.
+
+(* the mzeng palette sorter: co-occurrence matrix, heaviest edge, greedy insertion by accumulated co-occurrence sums. Its index
+   list contains every index the image uses - the co-occurrence graph of the used indices is connected because consecutive
+   pixels in scan order are counted, so an unplaced used index always has a positive sum; the code's phantom choice (index 0
+   when all sums are zero) can only replace unused entries; a one-colour image is saved by apply_most_popular_color's lookup -
+   hence the re-ordered image means the same picture *)
+Theorem C01_image_mzeng : forall img r pic, wf img -> sem img = Some pic ->
+  sorted_palette_mzeng img = Ok (Some r) -> sem r = Some pic /\ wf r.
+Proof. exact sorted_palette_mzeng_sem. Qed.
+Print Assumptions C01_image_mzeng.
+
+(* the co-occurrence matrix: symmetric, non-negative, counts every pair of consecutive pixels and only values that occur *)
+Theorem C01_cooccurrence_matrix : forall (n : nat) (lines : list scanline) m,
+  Forall (fun l => Forall (fun v => 0 <= v < Z.of_nat n) (l_data l)) lines ->
+  co_occurrence_matrix n lines = Ok m -> cooc_inv n m (concat (map l_data lines)).
+Proof. exact co_occurrence_inv. Qed.
+Print Assumptions C01_cooccurrence_matrix.
